@@ -2,7 +2,7 @@
 (***************************************************************************)
 (* Exhaustive small scope for the region properties (C01, and C02 on the   *)
 (* same calls): EVERY boolean operation whose subject and clip are single  *)
-(* triangles with vertices on the 3 x 3 lattice {0,8,16}^2 (all 168        *)
+(* triangles with vertices on the 3 x 3 lattice {-8,0,8}^2 (all 168        *)
 (* ordered triples of distinct lattice points up to rotation: both         *)
 (* orientations, collinear triples included), for all four clip types and  *)
 (* the fill rules EvenOdd and Positive (for a single triangle NonZero      *)
@@ -17,7 +17,8 @@
 (***************************************************************************)
 EXTENDS Integers, Sequences, FiniteSets, TLC, Json
 
-L == {<<8 * x, 8 * y>> : x \in 0..2, y \in 0..2}
+\* (centred at the origin, so that diagonals cross at exactly (0,0): a position in-band "unset" markers collide with)
+L == {<<8 * x, 8 * y>> : x \in -1..1, y \in -1..1}
 Less(p, q) == p[1] < q[1] \/ (p[1] = q[1] /\ p[2] < q[2])
 
 \* vertex cycles with distinct vertices, written from their smallest vertex
